@@ -143,11 +143,23 @@ def oracle(case):
 
 # ---- arbitrary environ dicts against a richer application (oracle only) -----------------------
 
-def fuzz_app():
+def fuzz_app(kept_pages=False):
+    """`kept_pages`: the application answers 404 and 500 with prebuilt response objects it keeps (a "cached" error
+    page): from the second such answer on the object has been sent before"""
     from poorwsgi import Application, state
     from poorwsgi.response import Response
     from poorwsgi.headers import parse_range
-    app = Application("verif_c01_fuzz_%d" % os.getpid())
+    app = Application("verif_c01_fuzz%d_%d" % (kept_pages, os.getpid()))
+    if kept_pages:
+        pages = {404: Response(b"kept 404 page", status_code=404), 500: Response(b"kept 500 page", status_code=500)}
+
+        @app.http_state(404)
+        def kept404(req, **kwargs):
+            return pages[404]
+
+        @app.http_state(500)
+        def kept500(req, **kwargs):
+            return pages[500]
     app.document_root = W.root()
     app.document_index = True
     app.secret_key = "k"
@@ -224,7 +236,7 @@ def fuzz_app():
 
 
 def extra_oracles(rng, tier):
-    app = fuzz_app()
+    apps = [fuzz_app(), fuzz_app(kept_pages=True)]
     n = 6000 if tier == "thorough" else 1200
     out = []
     stats = {}
@@ -268,6 +280,7 @@ def extra_oracles(rng, tier):
             env["wsgi.file_wrapper"] = lambda f, bs=8192: iter(lambda: f.read(bs), b"")
         calls = []
         try:
+            app = apps[1] if rng.random() < 0.3 else apps[0]
             chunks = list(app(dict(env), lambda s, h: calls.append((s, h))))
             outcome = ("answered", calls, chunks) if calls else ("silent", chunks)
         except BaseException as err:
@@ -284,6 +297,8 @@ def extra_oracles(rng, tier):
             shown["wsgi.input"] = hx(body[:64])
             if "wsgi.file_wrapper" in shown:
                 shown["wsgi.file_wrapper"] = "present"
+            if app is apps[1]:
+                shown["application"] = "answers 404/500 with response objects it keeps (second and later use)"
             kind = type(outcome[1]).__name__ if outcome[0] == "escaped" else outcome[0]
             out.append(Violation("c01-environ:%s" % kind, shown, bad))
     return out, {"evaluations": seen, "distinct_nontrivial": seen, "environ_outcomes": stats}
